@@ -38,6 +38,10 @@ CLAIMED = {
          "Deductive proof, for every n in the stated range (unbounded above up to the overflow side-condition), that the node's quorum function equals floor(2n/3)+1 and that the formulas in Messages.sol and governance.ral compute the same; quorum_bft proves >2n/3, <=n and the intersection bound.",
          "Trusted: govc, SMT solvers, the extraction of the two contract formulas (integer + * / only, fails closed). Integer overflow excluded by the requires clause (n <= (2^63-1)/10); callers pass len(keys).",
          "DESIGN.md §3-C07"),
+ "C15": ("functional contracts on the nine Serialize methods and ten request converters: envelope, module id, action id, field offsets and total size extracted on every run from governance.ral / token_bridge_governance.ral; lossless clauses with exact conversion semantics; no-panic obligations incl. InjectGovernanceVAA's type switch; SMT",
+         "Deductive proof for every governance request: the converter either rejects or returns a VAA from the configured governance emitter with the request's header values, whose payload has the module bytes, the action id and every field at the offsets and total length the Ralph parser reads, with each requested number equal to the number encoded (no wrap-around); no request reaches a panic. Nine genuine defects (silent truncation, wrap, two panics) were found by failing obligations, replayed on the real code and repaired.",
+         "Trusted: govc, SMT solvers; regex-level extraction of the Ralph parsers (fails closed); hex.DecodeString / IsHexAddress / HexToAddress uninterpreted; protobuf hands over non-nil messages (environment assumptions listed); purity ('all operators sign the same digest') follows from the converters' frame (modifies only fresh objects) and the C04 digest contract. The Ralph precondition 'length > 0' of destroyUnexecutedSequenceContracts is not mirrored (an empty list yields a VAA the contract rejects).",
+         "DESIGN.md §3-C15"),
  "C17": ("loop invariant + per-iteration contract (old() = iteration head) on the dispatcher's select loop, at-assertions at the send site, non-blocking obligations on every send, contract on PostObservationRequest; SMT",
          "Deductive proof for every sequence of requests and ticks (nondeterministic select, havoc'd received values, symbolic clock): a request is forwarded only on the channel the routing table holds for the chain id it names (no narrowing), only when that (chain, tx) is not in the cache, the cache grows only when a send happened, the purge removes exactly entries older than 11 minutes, and every send sits in a select with default.",
          "Trusted: govc, SMT solvers; ghost monotone clock for clock.Now (ticker phase arbitrary); hex.EncodeToString uninterpreted; goroutine scheduling and channel fairness not modelled (not needed: one goroutine); received requests assumed non-nil.",
